@@ -136,6 +136,24 @@ def _controls(p):
     # the slicer may inline `let n = 0` (foldable) but never a scalar that was lent out by &mut (opaque)
     yield ("mut-borrowed-opaque", "slicer", sees_through("foldable") and not sees_through("opaque"), sees_through("opaque"))
 
+    # equivalent spellings: `len() == 0` is an is_empty() test, `if let None = o` is an is_none() test
+    def nonempty_guard(name):
+        b = p.one(r"Chan::%s$" % name)
+        s_ = calls(b, r"extend_from_slice")[0]
+        pred = lambda c_, lab: isinstance(lab, bool) and c_[0] == "call" and (c_[1] or "").endswith("::is_empty") and lab is False
+        return R.guarded_by(b, s_, pred)[0] and any(pred(c_, lab) for c_, lab, a in b.guards(s_))
+
+    yield ("synonym-len-eq-zero", "spellings", nonempty_guard("syn_len_good"), nonempty_guard("syn_len_bad"))
+
+    def some_guard(name):
+        b = p.one(r"Chan::%s$" % name)
+        s_ = calls(b, r"Chan::dispatch$")[0]
+        first_arg = lambda e_: e_[0] == "arg" and e_[1] == 2
+        pred = lambda c_, lab: isinstance(lab, bool) and c_[0] == "call" and (c_[1] or "").endswith("::is_some") and lab is True and first_arg(c_[2][0])
+        return R.guarded_by(b, s_, pred)[0] and any(pred(c_, lab) for c_, lab, a in b.guards(s_))
+
+    yield ("synonym-if-let-none", "spellings", some_guard("syn_opt_good"), some_guard("syn_opt_bad"))
+
     # captured variables: `.^i:name` of the closure resolves, through the closure aggregate, to the parent's local
     par = p.one(r"Chan::capture$")
     clo = [c_ for c_ in p.with_closures(par) if c_ is not par]
